@@ -38,3 +38,8 @@ register_object("C2Http", {"get_verb": "bytes", "submit_verb": "bytes", "submit_
 
 register_object("StringIterator", {"buffer": "clist", "index": "int"}, "dissect.cobaltstrike.c2profile")
 register_record("Token", {"type": "str", "value": "str"}, "lark")
+
+register_object("BeaconConfig", {"config_block": "bytes", "settings_tuple": "tuplelist[tuple[int,int,int,int,int,bytes]]", "xorkey": "any", "xorencoded": "any",
+                                 "pe_export_stamp": "any", "pe_compile_stamp": "any", "architecture": "any", "guardrails": "any",
+                                 "_settings": "any", "_settings_by_index": "any", "_raw_settings": "any", "_raw_settings_by_index": "any"},
+                "dissect.cobaltstrike.beacon")
